@@ -345,7 +345,7 @@ impl Prop for C12 {
     type Case = Case;
     const ID: &'static str = "C12";
     const NUM: u64 = 12;
-    const RULE: &'static str = "digraphs built for near misses (order 1..40 quick / 1..90 thorough): tournaments and size-preserving non-tournaments (one pair doubled, another emptied), semicomplete digraphs and the same minus one pair with surplus arcs elsewhere, complete / complete minus one arc, circulants (regular) and one-arc perturbations, arc-disjoint circuit unions (balanced) and perturbations, symmetric / oriented digraphs and one-arc perturbations, uniform digraphs; each also relabelled onto non-contiguous AdjacencyMap ids; pairs (H, D) with H derived from D by deleting arcs / trailing vertices and optionally adding one foreign arc or vertex; all five representations; CPU count k in 1..=16 (AdjacencyList::is_semicomplete is threaded); enum leg: all pairs of digraphs of order <=2 and all digraphs of order 3 against a derived H. One case in 40 has order 63..70. Non-trivial = a perturbed (near-miss) kind, or a positive kind of order >=5, or an (H, D) pair with a foreign arc or vertex; distinct = distinct serialised case.";
+    const RULE: &'static str = "digraphs built for near misses (order 1..40 quick / 1..90 thorough): tournaments and size-preserving non-tournaments (one pair doubled, another emptied), semicomplete digraphs and the same minus one pair with surplus arcs elsewhere, complete / complete minus one arc, circulants (regular) and one-arc perturbations, arc-disjoint circuit unions (balanced) and perturbations, symmetric / oriented digraphs and one-arc perturbations, uniform digraphs; each also relabelled onto non-contiguous AdjacencyMap ids; pairs (H, D) with H derived from D by deleting arcs / trailing vertices and optionally adding one foreign arc or vertex; all five representations; CPU count k in 1..=16 (AdjacencyList::is_semicomplete is threaded); enum leg: all pairs of digraphs of order <=2 and all digraphs of order 3 against a derived H. One case in 40 has order 63..70. Half of the near-miss pairs are drawn from the last four vertices. Non-trivial = a perturbed (near-miss) kind, or a positive kind of order >=5, or an (H, D) pair with a foreign arc or vertex; distinct = distinct serialised case.";
     const ASSUMPTIONS: &'static [&'static str] = &["order-0 digraphs are not exercised (no listed constructor produces one)"];
 
     fn legs(tier: Tier) -> Vec<Leg> {
